@@ -10,6 +10,7 @@ HdrFull == Map(<< <<Nat2I(1), Neg2I(7)>>, <<Nat2I(2), Arr(<<Nat2I(1), Ta>>)>>, <
                   <<Nat2I(7), SigAlg>>, <<Z2I(99), F15>>, <<Ta, Arr(<<Nil, Bool(TRUE)>>)>> >>)
 HdrCs2 == Map(<< <<Nat2I(6), B1>>, <<Nat2I(7), Arr(<<SigMin, SigAlg>>)>>, <<Neg2I(65537), U64max>> >>)
 RecipMinA == Arr(<<B0, EmptyMap, Nil>>)
+MapOKp == Map(<< <<Nat2I(4), B1>> >>)
 Recip4Empty == Arr(<<PA, EmptyMap, B1, EmptyArr>>)       \* 4-element recipient whose list is empty: re-encodes to 3 elements
 RecipNestA == Arr(<<B0, Map(<< <<Nat2I(4), B1>> >>), B1, Arr(<<RecipMinA, Recip4Empty>>)>>)
 KeyFull == Map(<< <<Neg2I(1), Nat2I(1)>>, <<Nat2I(4), Arr(<<Nat2I(2), Ta, Nat2I(1)>>)>>, <<Nat2I(1), Nat2I(2)>>, <<Nat2I(2), B1>>, <<Nat2I(3), Neg2I(7)>>,
@@ -25,6 +26,11 @@ AccItems == <<
   <<"CoseSignature", "", SigAlg>>, <<"CoseSignature", "", SigNested>>,
   <<"CoseSign1", "", Arr(<<PA, HdrCs2, Nil, B1>>)>>, <<"CoseSign1", "", Arr(<<B0, EmptyMap, B12, B0>>)>>,
   <<"CoseSign", "", Arr(<<Bs(<<160>>), EmptyMap, B1, Arr(<<SigMin, SigAlg>>)>>)>>,
+  <<"CoseSign", "", Arr(<<PA, MapOKp, Nil, Arr(<<SigAlg>>)>>)>>,                      \* detached payload
+  <<"CoseMac", "", Arr(<<B0, EmptyMap, Nil, B1, Arr(<<RecipMinA>>)>>)>>,              \* no payload
+  <<"CoseEncrypt", "", Arr(<<B0, EmptyMap, B12, Arr(<<RecipMinA>>)>>)>>,              \* ciphertext present
+  <<"CoseEncrypt0", "", Arr(<<PA, EmptyMap, Nil>>)>>,                                 \* no ciphertext
+  <<"CoseRecipient", "", Arr(<<PA, EmptyMap, B1>>)>>,
   <<"CoseMac", "", Arr(<<PA, EmptyMap, B1, B12, Arr(<<RecipNestA>>)>>)>>,
   <<"CoseMac0", "", Arr(<<PA, Map(<< <<Nat2I(4), B1>> >>), Nil, B1>>)>>,
   <<"CoseEncrypt", "", Arr(<<PA, EmptyMap, Nil, Arr(<<RecipMinA, Recip4Empty>>)>>)>>,
